@@ -420,13 +420,14 @@ struct ctx_t
     report_t&          r;
     const std::string& handle;
     const case_t&      c;
+    std::string        suffix{}; ///< appended to every violation key (e.g. the chunk size the statistics were accumulated with)
 
     void violation(const std::string& key, std::initializer_list<std::pair<std::string, std::string>> kv) const
     {
         std::string detail = jobj(kv);
         detail.pop_back();
         detail += ",\"case\":" + c.json() + "}";
-        r.violation(key, handle, detail);
+        r.violation(key + suffix, handle, detail);
     }
 };
 
@@ -943,6 +944,8 @@ int run_case(report_t& r, const std::string& handle, const case_t& c)
         }
     }
 
+    const auto in0    = in;
+    const auto tg0    = tg;
     const auto fstats = scalar_stats_t::make_flatten_stats(dataset, samples);
     const auto tstats = scalar_stats_t::make_targets_stats(dataset, samples);
     in.stats          = &fstats;
@@ -953,6 +956,21 @@ int run_case(report_t& r, const std::string& handle, const case_t& c)
     if (!in.ref.empty() && !tg.ref.empty())
     {
         check_model(x, in, tg);
+    }
+
+    // the statistics are those of the data whatever chunk size they are accumulated with: every chunk size below the number
+    // of rows (several chunks; a shorter last chunk whenever it does not divide the number of rows)
+    for (int batch = 1; batch < c.n; ++batch)
+    {
+        const auto fstats_b = scalar_stats_t::make_flatten_stats(dataset, samples, batch);
+        const auto tstats_b = scalar_stats_t::make_targets_stats(dataset, samples, batch);
+        auto       in_b     = in0;
+        auto       tg_b     = tg0;
+        in_b.stats          = &fstats_b;
+        tg_b.stats          = &tstats_b;
+        const ctx_t xb{r, handle, c, ":batch=" + std::to_string(batch)};
+        check_side(xb, in_b);
+        check_side(xb, tg_b);
     }
     return 0;
 }
